@@ -422,11 +422,21 @@ class Walker:
                 env0, bc0 = dict(self.env), dict(self.bind_ctx)
                 self.gen = saved + (('pyif', cond, True),)
                 self.block(st.body[:-1] if is_cont else st.body)
-                self.env, self.bind_ctx = env0, bc0
+                env_c = self.env
+                self.env, self.bind_ctx = dict(env0), dict(bc0)
                 self.gen = saved + (('pyif', cond, False),)
                 self.refine_none(st.test, False)
                 self.block(stmts[i + 1:])
                 self.gen = saved
+                if is_cont:
+                    # the iteration that took `continue` hands on what it had: a loop-carried name updated by the rest of the body
+                    # (width += ... after the continue) is updated only when the condition is false
+                    for name in set(env_c) | set(self.env):
+                        a, b = env_c.get(name), self.env.get(name)
+                        if a is None or b is None or a == b:
+                            continue
+                        if any(x[0] == 'carry' for x in ir.walk(a)) or any(x[0] == 'carry' for x in ir.walk(b)):
+                            self.env[name] = ('phi', cond, a, b)
                 return
             self.stmt(st)
 
